@@ -114,4 +114,13 @@ CONF = {
   "assumptions": ["every ordering of a timer expiry relative to submissions that real time can produce is one of the enumerated sequences (a select with two ready cases equals one of the two orders)",
                   "120 s watchdogs only convert a real deadlock into a report"],
  },
+ "C17": {
+  "level": "model_checking",
+  "rule": "stateless depth-first exploration of thread schedules (caller, run loop, reader, keepalive, peer-drop threads) of the real native BGP session under a cooperative scheduler with preemption bounding (bounds 0,1,2 completed in turn) over 12 caller programs (Set sequences with superset/subset/attribute-only/empty/disjoint changes, Close, 0-2 peer drops, unexpected ASN, 2-byte peer); states = complete executions, transitions = scheduling decisions; every execution runs the implementation",
+  "parts": [{"name": "main", "pkg": "internal/bgp/native", "test": "TestVerif_C17", "shards": {"quick": 16, "thorough": 16}, "budget_s": {"quick": 100, "thorough": 1500}, "gomaxprocs": 1}],
+  "rewrites": {"sync": ["internal/bgp/native/native.go"], "go": ["internal/bgp/native/native.go"], "time": ["internal/bgp/native/native.go"],
+               "hooks": [{"file": "internal/bgp/native/native.go", "func": "dialMD5", "hook": "HookDialMD5"}]},
+  "assumptions": ["scheduling points at mutex/cond operations, connection reads/writes, dial, sleep, thread start; unsynchronised accesses are the subject of the separate race pass (C20)",
+                  "the keepalive ticker loop is suppressed and its effect (sendKeepalive) delivered by a harness thread", "in-memory connection: writes are atomic per call; TCP partial writes and MD5 are not modelled"],
+ },
 }
